@@ -989,6 +989,12 @@ class FormulaManager(object):
 
     def BVRepeat(self, formula: FNode, count: int=1) -> FNode:
         """Returns the concatenation of count copies of formula."""
+        if not is_python_integer(count) or count < 1:
+            raise PysmtValueError("BVRepeat: 'count' should be a positive "
+                                  "integer. Got %s" % str(count))
+        if not self.env.stc.get_type(formula).is_bv_type():
+            raise PysmtTypeError("BVRepeat: expected a bit-vector, got %s"
+                                 % str(formula))
         res = formula
         for _ in range(count-1):
             res = self.BVConcat(res, formula)
